@@ -165,6 +165,20 @@ def roundtrip(stack, c, serde_name, key, value, chunks, coll):
             return "get_many(%s) returned keys %r with %r" % (coll, sorted(map(repr, many.keys())), repr(many.get(key))[:80])
         if many[other] not in (b"OTHER", "OTHER"):
             return "get_many returned another key's value for %r: %r" % (other, many[other])
+        # a second key that BEGINS with the configured prefix: it is prefixed like any other (its wire key is prefix + prefix + ...)
+        pfx = c.get("prefix", b"")
+        if pfx:
+            kb = key.encode("utf8") if isinstance(key, str) else key
+            shadow = pfx + kb
+            sval = b"SHADOW" if serde_name in ("none", "custom", "legacy") else "SHADOW"
+            if cl.set(shadow, sval, noreply=False) is not True:
+                return "set(%r) did not report success" % (shadow,)
+            g_own, g_sh = cl.get(key), cl.get(shadow)
+            if g_own != want or type(g_own) is not type(want) or g_sh not in (b"SHADOW", "SHADOW"):
+                return "after also storing %r (the prefix followed by the key): get(key) returned %r, get(%r) returned %r" % (shadow, repr(g_own)[:60], shadow, repr(g_sh)[:60])
+            both = cl.get_many([key, shadow])
+            if len(both) != 2 or both.get(key) != want or both.get(shadow) not in (b"SHADOW", "SHADOW"):
+                return "get_many([key, prefix + key]) returned %r" % (repr(both)[:120],)
         # the other ways to store: replace (existing key), cas (with the token just read), add (fresh key) - each followed by a fetch
         k2 = b"verb-key"
         steps = [("add", lambda: cl.add(k2, value, noreply=False)), ("replace", lambda: cl.replace(k2, value, noreply=False)),
